@@ -22,6 +22,10 @@ import (
 
 // ---- concurrent workloads (run inside a -race build of this binary) ----
 
+// sharedOpts: an option slice with spare capacity that every goroutine passes on as it is (callers build such
+// slices conditionally); the library may read it, not append into it
+var sharedOpts = make([]be.IndexOpt, 0, 4)
+
 type seqAnswer struct {
 	docs []int64
 	hits [][3]int64
@@ -285,6 +289,15 @@ func race07Main(args []string) {
 							p := safeCall(func() { d, e = s.index.Retrieve(s.objs[i]) })
 							if (p || e != nil) != s.seq[i].err || (!s.seq[i].err && !reflect.DeepEqual(docIDs(d), s.seq[i].docs)) {
 								report(fmt.Sprintf("query %d through a shared assignment object: concurrent %v sequential %+v", i, d, s.seq[i]))
+							}
+							continue
+						}
+						if r.Chance(20) { // ONE option slice with spare capacity handed to every retrieval that wants options
+							own := be.NewDocIDCollector()
+							var e error
+							p := safeCall(func() { e = s.index.RetrieveWithCollector(s.qs[i].build(), own, sharedOpts...) })
+							if (p || e != nil) != s.seq[i].err || (!s.seq[i].err && !reflect.DeepEqual(docIDs(own.GetDocIDs()), s.seq[i].docs)) {
+								report(fmt.Sprintf("query %d with a caller-owned collector and a shared option slice: concurrent %v sequential %+v", i, own.GetDocIDs(), s.seq[i]))
 							}
 							continue
 						}
